@@ -318,7 +318,23 @@ def sx_bytes(x=b"", *a):
 
 
 def sx_range(*a):
-    a = [concretize_small(v, -(1 << 40), 1 << 40) if isinstance(v, SxInt) else v for v in a]
+    if any(isinstance(v, SxInt) for v in a):
+        # range(start, stop) with symbolic bounds whose distance is concrete: the elements are
+        # start, start+1, ... (symbolic values, concrete count)
+        if len(a) == 2 or (len(a) == 3 and a[2] == 1):
+            start, stop = a[0], a[1]
+            d = stop - start
+            if isinstance(d, SxInt):
+                e = z3.simplify(d.e)
+                if z3.is_bv_value(e):
+                    d = e.as_signed_long()
+                elif z3.is_int_value(e):
+                    d = e.as_long()
+                else:
+                    d = concretize_small(d, -1, 4096) if bool(d >= 0) else 0
+            if isinstance(start, SxInt) or isinstance(stop, SxInt):
+                return [start + j for j in range(max(d, 0))]
+        a = [concretize_small(v, -(1 << 40), 1 << 40) if isinstance(v, SxInt) else v for v in a]
     return range(*a)
 
 
